@@ -121,6 +121,13 @@ CHECKS["C17"] = dict(
     technique="bounded-exhaustive enumeration of definition shapes, signature extraction from the output with CPython ast",
 )
 
+CHECKS["C12"] = dict(
+    category="model_checking",
+    text="The only nondeterminism of the crate - the per-thread SipHash keys of std HashMap/HashSet - is OWNED by an LD_PRELOAD getrandom interposer, so a run is a function of (input, seed, history). Explored exhaustively within bounds: (1) ownership: every program twice under the same seed must be byte-identical (else machinery error); (2) seeds: ~410 programs biased to order-sensitive constructs (all interleavings of fields and methods of classes with <= 5 members x 3 class headers, all ordered pairs and all triples of 6 types as if/match unions and union parameters, two parents, re-declared parent field, classes named List/Set/Range, many classes, tuples, dict/set literals, every support import, handle unions) plus repository samples and pool programs, each under a seed set chosen greedily from a measured calibration so that EVERY iteration order of every 2- and 3-element probe set is induced by some seed (14 seeds quick, 64 thorough; 4-element coverage reported) x both annotate settings; (3) histories: explicit-state search over ALL ordered pairs (triples) of a 12-program alphabet - including workloads that reuse the same names with different meanings - run back to back on one thread of a fresh process, each result compared with the program alone in a fresh process; (4) the same request on 16 free-running threads at once; (5) fresh processes with really random keys. Invariant: one verdict and one byte string per (program, annotate).",
+    design_ref="DESIGN.md §4 C12", note="loom/shuttle exploration would be vacuous: the crate has no shared state or synchronisation (scanned at run time and reported in the evidence). Seed calibration measures the seed set on probe sets; each internal HashSet has its own key. Diagnostic text of rejected programs may vary and is not compared. C12-F1 (two parents defining the same method) is a known finding.",
+    technique="exhaustive exploration of owned nondeterminism (enumerated hash seeds with measured order coverage) and explicit-state search over same-process histories on the real pipeline",
+)
+
 REASON_PENDING = "check not built yet in this session (see DESIGN.md Appendix D build order); nothing is claimed for it"
 
 
